@@ -36,7 +36,7 @@ func init() {
 		Real: []string{"tree.Compare", "tree.CompareWeighted", "Tree.CommonEdges", "Edge.FindEdge", "Tree.CompareTipIndexes", "utils.ReadMultiTrees reader goroutine", "hashmap/EdgeIndex", "newick parser"},
 		Simulated: []string{"choice of the runnable goroutine at every channel/WaitGroup/lock/shared-variable point", "input byte stream (chunking, buffer size)",
 			"position and kind of the taxon-mismatched record"},
-		Expected: []string{"strict-contraction-of-ref", "strict-refinement-of-ref", "identical-to-ref", "mismatch-first", "mismatch-last", "swap-run"},
+		Expected: []string{"strict-contraction-of-ref", "strict-refinement-of-ref", "identical-to-ref", "mismatch-first", "mismatch-last", "swap-run", "common-edges-after-in-place-edit"},
 	})
 }
 
@@ -229,6 +229,7 @@ func execC08(t *testing.T, c any, o *Outcome) {
 		// pairwise variant, both directions
 		checkCommonEdges(o, pc.Ref, swapRec.Text, pc.Tips)
 		checkCommonEdges(o, swapRec.Text, pc.Ref, pc.Tips)
+		checkCommonEdgesAfterEdit(o, pc.Ref, swapRec.Text, pc.Tips)
 	}
 	if pc.Chunk == 1 && len(o.Viols) == 0 {
 		checkCompareCLI(t, o, pc)
@@ -273,3 +274,48 @@ func checkCommonEdges(o *Outcome, aText, bText string, tips bool) {
 var _ = math.Abs
 var _ = strings.Join
 var _ *tree.Tree
+
+// checkCommonEdgesAfterEdit: the documented manual way of (re)computing the indexes (UpdateTipIndex, ClearBitSets, UpdateBitSet)
+// on a tree that was fully indexed once and then edited in place (an NNI), against a tree indexed that way only.
+func checkCommonEdgesAfterEdit(o *Outcome, aText, bText string, tips bool) {
+	guard(o, "CommonEdges-after-edit", func() {
+		a, b := mustParse(aText), mustParse(bText)
+		if err := a.ReinitIndexes(); err != nil {
+			panic("harness: " + err.Error())
+		}
+		var rs []tree.Rearrangement
+		(&tree.NNIRearranger{}).Rearrange(a, func(re tree.Rearrangement) bool { rs = append(rs, re); return len(rs) < 3 })
+		if len(rs) == 0 {
+			return
+		}
+		if err := rs[len(rs)-1].Apply(); err != nil {
+			return
+		}
+		o.Probe("common-edges-after-in-place-edit")
+		for _, tr := range []*tree.Tree{a, b} {
+			if err := tr.UpdateTipIndex(); err != nil {
+				panic("harness: " + err.Error())
+			}
+			if err := tr.ClearBitSets(); err != nil {
+				panic("harness: " + err.Error())
+			}
+			if err := tr.UpdateBitSet(); err != nil {
+				panic("harness: " + err.Error())
+			}
+		}
+		edited := a.Newick()
+		am, err := ParseRef(edited)
+		if err != nil {
+			return
+		}
+		w := wantCompare(am, mustModel(bText), tips)
+		t1, common, err := a.CommonEdges(b, tips)
+		if err != nil {
+			o.Fail("unexpected-error:CommonEdges", "CommonEdges fails after an in-place edit and a manual re-index: %v\n  a %s\n  b %s", err, edited, bText)
+			return
+		}
+		if t1 != w.t1 || common != w.c {
+			o.Fail("CommonEdges:counts-after-edit", "tree a was indexed, edited in place by an NNI and re-indexed with UpdateTipIndex / ClearBitSets / UpdateBitSet: CommonEdges(tips=%v) = (%d specific, %d common), the split sets say (%d, %d)\n  a before %s\n  a after  %s\n  b        %s", tips, t1, common, w.t1, w.c, aText, edited, bText)
+		}
+	})
+}
